@@ -446,10 +446,12 @@ class Bin(Factory, Container):
             and np.all(np.isfinite(q))
             and np.all(np.isfinite(weights))
         ):
-            # Numpy defines histograms as including the upper edge of the last bin only, so drop that
-            weights[q == self.high] == 0.0
-
-            h, _ = np.histogram(q, self.num, (self.low, self.high), weights=weights)
+            # same index arithmetic as Bin.bin(), so that both fill paths agree at the bin edges
+            # (np.histogram places edges differently and counts q == high in the last bin)
+            selection = (q >= self.low) & (q < self.high)
+            index = np.floor(self.num * (q[selection] - self.low) / (self.high - self.low)).astype(int)
+            np.minimum(index, self.num - 1, index)
+            h = np.bincount(index, weights=weights[selection], minlength=self.num)
 
             for hi, value in zip(h, self.values):
                 value.fill(None, float(hi))
